@@ -309,6 +309,7 @@ type aggAllIterator[N aggregation.Number] struct {
 	accumulator         aggAccumulator[N]
 	result              *measurev1.DataPoint
 	err                 error
+	shardID             uint32
 }
 
 func newAggAllIterator[N aggregation.Number](
@@ -339,6 +340,9 @@ func (ami *aggAllIterator[N]) Next() bool {
 			if resultDp != nil {
 				continue
 			}
+			// The partial carries the shard of its first point, as a group's partial does: the
+			// coordinator drops replica answers by shard id and must keep those of other shards.
+			ami.shardID = idp.GetShardId()
 			resultDp = &measurev1.DataPoint{
 				TagFamilies: dp.TagFamilies,
 			}
@@ -361,7 +365,7 @@ func (ami *aggAllIterator[N]) Current() []*measurev1.InternalDataPoint {
 	if ami.result == nil {
 		return nil
 	}
-	return []*measurev1.InternalDataPoint{{DataPoint: ami.result, ShardId: 0}}
+	return []*measurev1.InternalDataPoint{{DataPoint: ami.result, ShardId: ami.shardID}}
 }
 
 func (ami *aggAllIterator[N]) Close() error {
